@@ -124,7 +124,8 @@ CHECKS["C06"] = dict(
           "adjoint per element for EVERY field X; assembled: sum_i f_i div(X)_i = -sum_t area_t X_t.grad_t f for all f, X, meshes; "
           "entries of div sum to zero; div(grad g) = -A g with the stiffness of C01; tets (after fix e9245f1): gradient = interpolant "
           "gradient for either orientation, exact on affine data, element adjointness with the orientation sign, assembled "
-          "adjointness sum_i f_i div(X)_i = -sum_t vol_t X_t.grad_t f and div(grad g) = -A g with the tetra stiffness of C01. "
+          "adjointness sum_i f_i div(X)_i = -sum_t vol_t X_t.grad_t f and div(grad g) = -A g with the tetra stiffness of C01; the gradient "
+          "of a non-degenerate element is the same vector for every order of its indices (6 / 24 orders, GradInvarP). "
           "Dispatchers and dtype handling are tied by correspondence + oracles."),
     design="6/C06", technique="Coq proof over R (ring/field identities, scatter pairing lemma) + vm_compute correspondence")
 
